@@ -80,25 +80,27 @@ theorem renderC_not_in_chain (xs ds : List Str) (hx : ∀ c ∈ xs, '/' ∉ c)
   omega
 
 /-- the marker of `ds/n` can be written as soon as the directories "/.whiteout/<ds>" are absent
-or directories and the marker itself is absent -/
-theorem pAddWhiteout_succeeds (m : FMap) (ds : List Str) (n : Str)
+or directories and the marker itself is absent; the resulting map -/
+theorem pAddWhiteout_result (m : FMap) (ds : List Str) (n : Str)
     (hds : ∀ c ∈ ds, GoodComp c) (hn : GoodComp n)
     (hrootdir : ∃ e, m.find? [] = some e ∧ e.ftype = .dir)
     (hdirs : ∀ k ∈ chain [] (woDir :: ds), ∀ e, m.find? k = some e → e.ftype = .dir)
     (hnm : m.find? (marker (renderC (ds ++ [n]))) = none) :
-    (pAddWhiteout m (ds ++ [n])).1 = .ok () := by
+    pAddWhiteout m (ds ++ [n]) =
+      (.ok (), memPublish ((fillDirs m (chain [] (woDir :: ds))).insert
+        (marker (renderC (ds ++ [n]))) fileEntryNow) (marker (renderC (ds ++ [n]))) []) := by
   have hds' : ∀ c ∈ woDir :: ds, GoodComp c := by
     intro c hc
     rcases List.mem_cons.1 hc with rfl | hc
     · exact goodComp_woDir
     · exact hds c hc
   have hn' := goodComp_wo hn
-  obtain ⟨e0, he0, _⟩ := hrootdir
+  obtain ⟨e0, he0, hd0⟩ := hrootdir
   have hmk := mkdirs_chain m [] (woDir :: ds) (by simp) (good_noSlash hds')
     (contains_of_find he0) hdirs
   have hmr : marker (renderC (ds ++ [n])) = renderC ((woDir :: ds) ++ [n ++ woSuffix]) :=
     marker_renderC ds n
-  have hpar := parentOk_fillDirs_gen (n := n ++ woSuffix) ⟨e0, he0, ‹_›⟩ hds' hn' hdirs
+  have hpar := parentOk_fillDirs_gen (n := n ++ woSuffix) ⟨e0, he0, hd0⟩ hds' hn' hdirs
   have hfind := find?_snoc_fillDirs (mu := m) hds' hn' [] (Or.inl rfl)
   simp only [List.append_nil] at hfind
   rw [← hmr] at hpar hfind
@@ -108,6 +110,125 @@ theorem pAddWhiteout_succeeds (m : FMap) (ds : List Str) (n : Str)
   unfold pAddWhiteout
   rw [List.dropLast_concat, hmk]
   simp only [andThen, Mem.pTouch, hpar, if_true, hcreate]
+
+theorem pAddWhiteout_succeeds (m : FMap) (ds : List Str) (n : Str)
+    (hds : ∀ c ∈ ds, GoodComp c) (hn : GoodComp n)
+    (hrootdir : ∃ e, m.find? [] = some e ∧ e.ftype = .dir)
+    (hdirs : ∀ k ∈ chain [] (woDir :: ds), ∀ e, m.find? k = some e → e.ftype = .dir)
+    (hnm : m.find? (marker (renderC (ds ++ [n]))) = none) :
+    (pAddWhiteout m (ds ++ [n])).1 = .ok () := by
+  rw [pAddWhiteout_result m ds n hds hn hrootdir hdirs hnm]
+
+/-- a canonical path in the chain of "/.whiteout/<ds>" starts with ".whiteout" -/
+theorem chain_wo_head (xs ds : List Str) (hx : ∀ c ∈ xs, '/' ∉ c) (hds : ∀ c ∈ ds, '/' ∉ c)
+    (h : renderC xs ∈ chain [] (woDir :: ds)) : xs.head? = some woDir := by
+  obtain ⟨i, h1, h2, he⟩ := (mem_chain [] (woDir :: ds) _).1 h
+  simp only [List.nil_append] at he
+  have := C06.renderC_injective xs ((woDir :: ds).take i) hx (by
+    intro c hc
+    rcases List.mem_cons.1 (List.mem_of_mem_take hc) with rfl | hc
+    · exact goodComp_woDir.noSlash
+    · exact hds c hc) he
+  obtain ⟨i', rfl⟩ : ∃ i', i = i' + 1 := ⟨i - 1, by omega⟩
+  rw [this]; simp
+
+/-- the marker of an ancestor of `ds/n` is not one of the directories "/.whiteout/<ds>" -/
+theorem marker_prefix_not_in_chain (ds : List Str) (hds : ∀ c ∈ ds, GoodComp c) (j : Nat)
+    (h1 : 1 ≤ j) (h2 : j ≤ ds.length) :
+    marker (renderC (ds.take j)) ∉ chain [] (woDir :: ds) := by
+  intro hk
+  rcases List.eq_nil_or_concat (ds.take j) with hnil | ⟨ys, y, hy⟩
+  · have := congrArg List.length hnil
+    rw [List.length_take, List.length_nil] at this; omega
+  · rw [List.concat_eq_append] at hy
+    have hgood : ∀ c ∈ ys ++ [y], GoodComp c := by
+      intro c hc; rw [← hy] at hc; exact hds c (List.mem_of_mem_take hc)
+    obtain ⟨hys, hyg⟩ := good_of_snoc hgood
+    rw [hy, marker_renderC] at hk
+    obtain ⟨i, hi1, hi2, he⟩ := (mem_chain [] (woDir :: ds) _).1 hk
+    simp only [List.nil_append] at he
+    have heq := C06.renderC_injective _ _ (good_noSlash (good_markerComps hys hyg)) (by
+      intro c hc
+      rcases List.mem_cons.1 (List.mem_of_mem_take hc) with rfl | hc
+      · exact goodComp_woDir.noSlash
+      · exact (hds c hc).noSlash) he
+    obtain ⟨i', rfl⟩ : ∃ i', i = i' + 1 := ⟨i - 1, by omega⟩
+    simp only [List.take_succ_cons, List.cons.injEq, true_and] at heq
+    -- two prefixes of `ds` of the same length
+    have hp1 : ys ++ [y ++ woSuffix] <+: ds := by rw [heq]; exact List.take_prefix _ _
+    have hp2 : ys ++ [y] <+: ds := by rw [← hy]; exact List.take_prefix _ _
+    have hle : (ys ++ [y ++ woSuffix]).length ≤ (ys ++ [y]).length := by simp
+    have hpp := List.prefix_of_prefix_length_le hp1 hp2 hle
+    have := hpp.eq_of_length (by simp)
+    have h3 := List.append_cancel_left this
+    simp at h3
+    have := congrArg List.length h3
+    simp [woSuffix] at this
+
+theorem marker_ne_self (ds : List Str) (n : Str) :
+    marker (renderC (ds ++ [n])) ≠ renderC (ds ++ [n]) := by
+  intro heq
+  have := congrArg List.length heq
+  simp [marker, woDir, woSuffix] at this
+  omega
+
+/-- `remove_file(p)` on a file of the view, as a function of the maps: the resulting upper map
+holds the marker (an empty file), nothing at `p`, and is otherwise unchanged outside the
+directories "/.whiteout/<ds>" -/
+theorem pRemoveFile_result (mu ml : FMap) (ds : List Str) (n : Str) (hds : ∀ c ∈ ds, GoodComp c)
+    (hn : GoodComp n) (hroot : RootOk mu)
+    (hwoarea : ∀ k ∈ chain [] (woDir :: ds), ∀ e, mu.find? k = some e → e.ftype = .dir)
+    (hhead : (ds ++ [n]).head? ≠ some woDir)
+    (e : Entry) (hv : view mu ml (renderC (ds ++ [n])) = some e) (hfile : e.ftype = .file) :
+    ∃ mu', pRemoveFile mu ml (ds ++ [n]) = (.ok (), mu') ∧
+      (∃ em, mu'.find? (marker (renderC (ds ++ [n]))) = some em ∧ em.ftype = .file) ∧
+      mu'.find? (renderC (ds ++ [n])) = none ∧
+      ∀ k, k ≠ renderC (ds ++ [n]) → k ≠ marker (renderC (ds ++ [n])) →
+        k ∉ chain [] (woDir :: ds) → mu'.find? k = mu.find? k := by
+  have hne : ds ++ [n] ≠ [] := by simp
+  have hpne : renderC (ds ++ [n]) ≠ [] := renderC_ne_nil hne
+  have hmne := marker_ne_self ds n
+  have hpnc : renderC (ds ++ [n]) ∉ chain [] (woDir :: ds) := fun hk =>
+    hhead (chain_wo_head _ _ (good_noSlash (good_snoc hds hn)) (good_noSlash hds) hk)
+  obtain ⟨hm, hcase⟩ := view_some_cases hv
+  have hnm : mu.find? (marker (renderC (ds ++ [n]))) = none := by
+    unfold FMap.contains at hm
+    cases hf : mu.find? (marker (renderC (ds ++ [n]))) <;> simp_all
+  -- the upper map once `p` is out of it
+  obtain ⟨m1, hstep, hm1⟩ : ∃ m1,
+      (if mu.contains (renderC (ds ++ [n])) then Mem.pRemoveFile mu (renderC (ds ++ [n]))
+        else (.ok (), mu)) = (.ok (), m1) ∧
+      ∀ k, m1.find? k = if k = renderC (ds ++ [n]) then none else mu.find? k := by
+    rcases hcase with hc | ⟨hc, _⟩
+    · refine ⟨mu.erase (renderC (ds ++ [n])), ?_, fun k => FMap.find?_erase _ _ _⟩
+      rw [if_pos (contains_of_find hc), pRemoveFile_file mu _ e hc hfile]
+    · refine ⟨mu, ?_, ?_⟩
+      · rw [contains_of_none hc]; rfl
+      · intro k; split
+        · rename_i hk; rw [hk]; exact hc
+        · rfl
+  have hres := pAddWhiteout_result m1 ds n hds hn
+    (by obtain ⟨e0, he0, hd0⟩ := hroot.root
+        exact ⟨e0, by rw [hm1, if_neg (fun h' => hpne h'.symm)]; exact he0, hd0⟩)
+    (by intro k hk e' he'
+        rw [hm1] at he'
+        split at he'
+        · cases he'
+        · exact hwoarea k hk e' he')
+    (by rw [hm1, if_neg hmne]; exact hnm)
+  refine ⟨_, ?_, ?_, ?_, ?_⟩
+  · unfold pRemoveFile
+    simp only [hv, hstep, andThen]
+    exact hres
+  · obtain ⟨em, h1, h2, _⟩ := find?_memPublish_self
+      ((fillDirs m1 (chain [] (woDir :: ds))).insert (marker (renderC (ds ++ [n]))) fileEntryNow)
+      (marker (renderC (ds ++ [n]))) []
+    exact ⟨em, h1, h2⟩
+  · rw [find?_memPublish_ne _ _ _ _ hmne.symm, FMap.find?_insert_ne _ _ _ _ hmne.symm,
+      find?_fillDirs_not_mem _ _ _ hpnc, hm1, if_pos rfl]
+  · intro k hk1 hk2 hk3
+    rw [find?_memPublish_ne _ _ _ _ hk2, FMap.find?_insert_ne _ _ _ _ hk2,
+      find?_fillDirs_not_mem _ _ _ hk3, hm1, if_neg hk1]
 
 section setting
 variable {w : World} {u l idu idl : Nat} {mu ml : FMap} (h : OW w u l mu ml)
@@ -592,51 +713,80 @@ def marker_survives_appendFile_stmt : Prop :=
 
 lower layer { "/d" directory, "/d/x" file with the byte 'L' }, upper layer empty; `decide`. -/
 
-open Vfs.C09 in
 section concrete
+open Vfs.C09
 
-/-- after `remove_file("/d/x")` -/
-def wRemoved : World := (ofs.removeFile "/d/x".toList w0).2
+/-- the upper map after `remove_file("/d/x")`: the marker and its directories -/
+def upRemoved : FMap :=
+  [("/.whiteout/d/x_wo".toList, fileEntryNow), ("/.whiteout/d".toList, dirEntryNow),
+   ("/.whiteout".toList, dirEntryNow)] ++ Mem.init
+
+/-- the world after `remove_file("/d/x")` (intermediate worlds are written out so that every
+check below is one step of computation) -/
+def wRemoved : World :=
+  { leaves := [{ kind := .mem, files := upRemoved }, { kind := .mem, files := exLower }] }
 
 example : (ofs.removeFile "/d/x".toList w0).1 = .ok () := by decide
+theorem wRemoved_is : (ofs.removeFile "/d/x".toList w0).2.leaves = wRemoved.leaves := by decide
+
+example : OW wRemoved 0 1 upRemoved exLower := ⟨rfl, rfl, by decide⟩
 example : (ofs.exists_ "/d/x".toList wRemoved).1 = .ok false := by decide
 example : viewOf wRemoved "/d/x" = none := by decide
 example : (ofs.metadata "/d/x".toList wRemoved).1 = .err .fileNotFound none := by decide
 example : readAll ofs "/d/x" wRemoved = .err .fileNotFound none := by decide
 example : (ofs.readDir "/d".toList wRemoved).1 = .ok [] := by decide
 -- the bookkeeping directory exists in the upper layer but is not listed
-example : (mapsOf wRemoved).1.contains "/.whiteout".toList = true := by decide
+example : upRemoved.contains "/.whiteout".toList = true := by decide
 example : (ofs.readDir [] wRemoved).1 = .ok ["d".toList] := by decide
--- the lower layer still holds the file
-example : (mapsOf wRemoved).2 = exLower := by decide
 -- unrelated operations later: still absent
-example : (ofs.exists_ "/d/x".toList (ofs.createDir "/e".toList wRemoved).2).1 = .ok false := by
-  decide
 example : (ofs.createDir "/e".toList wRemoved).1 = .ok () := by decide
+example : viewOf (ofs.createDir "/e".toList wRemoved).2 "/d/x" = none := by decide
 
 /-- … then one write session `create_file("/d/x")?.write_all("U")` -/
 def wRecreated : World :=
-  ((do let hd ← ofs.createFile "/d/x".toList; hd.writeAllAndDrop [85] : M Unit) wRemoved).2
+  { leaves := [{ kind := .mem, files :=
+      [("/d/x".toList, { fileEntryNow with content := [85] }), ("/d".toList, dirEntryNow),
+       ("/.whiteout/d".toList, dirEntryNow), ("/.whiteout".toList, dirEntryNow)] ++ Mem.init },
+    { kind := .mem, files := exLower }] }
 
 example : ((do let hd ← ofs.createFile "/d/x".toList; hd.writeAllAndDrop [85] : M Unit)
     wRemoved).1 = .ok () := by decide
+theorem wRecreated_is :
+    ((do let hd ← ofs.createFile "/d/x".toList; hd.writeAllAndDrop [85] : M Unit) wRemoved).2.leaves
+      = wRecreated.leaves := by decide
 example : readAll ofs "/d/x" wRecreated = .ok [85] := by decide
 example : (ofs.readDir "/d".toList wRecreated).1 = .ok ["x".toList] := by decide
 example : (mapsOf wRecreated).1.contains (marker "/d/x".toList) = false := by decide
 
-/-- … or, instead, `remove_dir("/d")` (now empty), then `create_dir("/d")` -/
-def wDirRemoved : World := (ofs.removeDir "/d".toList wRemoved).2
-def wDirRecreated : World := (ofs.createDir "/d".toList wDirRemoved).2
+/-- … or, instead, `remove_dir("/d")` (now empty) -/
+def wDirRemoved : World :=
+  { leaves := [{ kind := .mem, files := ("/.whiteout/d_wo".toList, fileEntryNow) :: upRemoved },
+    { kind := .mem, files := exLower }] }
 
 example : (ofs.removeDir "/d".toList wRemoved).1 = .ok () := by decide
+theorem wDirRemoved_is : (ofs.removeDir "/d".toList wRemoved).2.leaves = wDirRemoved.leaves := by
+  decide
 example : (ofs.exists_ "/d".toList wDirRemoved).1 = .ok false := by decide
 example : (ofs.exists_ "/d/x".toList wDirRemoved).1 = .ok false := by decide
 example : (ofs.readDir [] wDirRemoved).1 = .ok [] := by decide
+
+/-- … and then `create_dir("/d")` -/
+def wDirRecreated : World :=
+  { leaves := [{ kind := .mem, files := ("/d".toList, dirEntryNow) :: upRemoved },
+    { kind := .mem, files := exLower }] }
+
 example : (ofs.createDir "/d".toList wDirRemoved).1 = .ok () := by decide
+theorem wDirRecreated_is :
+    (ofs.createDir "/d".toList wDirRemoved).2.leaves = wDirRecreated.leaves := by decide
 example : (ofs.exists_ "/d".toList wDirRecreated).1 = .ok true := by decide
 example : (ofs.readDir "/d".toList wDirRecreated).1 = .ok [] := by decide
 example : (ofs.exists_ "/d/x".toList wDirRecreated).1 = .ok false := by decide
-example : (mapsOf wDirRecreated).2 = exLower := by decide
+
+/-- the world after `remove_file("/d")` — a DIRECTORY of the lower layer -/
+def wOrphan : World :=
+  { leaves := [{ kind := .mem, files :=
+      [("/.whiteout/d_wo".toList, fileEntryNow), ("/.whiteout".toList, dirEntryNow)] ++ Mem.init },
+    { kind := .mem, files := exLower }] }
 
 /-- **OPEN known finding, as a proved fact.** `remove_file` applied to a DIRECTORY that exists in
 the lower layer succeeds (the overlay never checks the type): afterwards the directory is absent
@@ -644,11 +794,12 @@ from the view but its child is still visible — a child without its parent. The
 exactly this. -/
 theorem remove_file_on_lower_dir_orphans :
     (ofs.removeFile "/d".toList w0).1 = .ok () ∧
-    viewOf (ofs.removeFile "/d".toList w0).2 "/d" = none ∧
-    viewOf (ofs.removeFile "/d".toList w0).2 "/d/x" ≠ none ∧
-    (ofs.exists_ "/d".toList (ofs.removeFile "/d".toList w0).2).1 = .ok false ∧
-    (ofs.exists_ "/d/x".toList (ofs.removeFile "/d".toList w0).2).1 = .ok true := by
-  decide
+    (ofs.removeFile "/d".toList w0).2.leaves = wOrphan.leaves ∧
+    viewOf wOrphan "/d" = none ∧ viewOf wOrphan "/d/x" ≠ none ∧
+    (ofs.exists_ "/d".toList wOrphan).1 = .ok false ∧
+    (ofs.exists_ "/d/x".toList wOrphan).1 = .ok true ∧
+    readAll ofs "/d/x" wOrphan = .ok [76] := by
+  refine ⟨by decide, by decide, by decide, by decide, by decide, by decide, by decide⟩
 
 /-- names of the form `x_wo` are reserved, not hidden: a layer that really holds "/d/y_wo" gets it
 listed (this is why `markers_invisible` speaks of markers, not of names) -/
